@@ -574,9 +574,62 @@ fn scale(w: &mut Worker) {
     }
 }
 
+/// A script in which every node has a label of its own and jumps to the label of the next node of a
+/// tour over all nodes (a stride that shares no factor with the number of nodes; also the identity tour
+/// and the reversed one): every jump lands on the line carrying that label, each node is visited once, in
+/// the order of the tour.
+fn many_labels(w: &mut Worker) {
+    let sizes: Vec<usize> = with_thresholds_usize(w.tier.pick(vec![2, 17, 70, 300, 3000], vec![2, 17, 70, 300, 3000, 12_000]), w.tier.pick(1024, 4096));
+    for &n in &sizes {
+        for stride_kind in ["next", "previous", "seven", "near-half"] {
+            let stride = match stride_kind {
+                "next" => 1,
+                "previous" => n - 1,
+                "seven" => 7 % n,
+                _ => n / 2 + 1,
+            };
+            let gcd = |mut a: usize, mut b: usize| {
+                while b != 0 {
+                    let t = a % b;
+                    a = b;
+                    b = t;
+                }
+                a
+            };
+            if stride == 0 || gcd(stride, n) != 1 {
+                continue;
+            }
+            let mut lines = vec!["seq = set \"\"".to_string(), "visits = set 0".to_string(), "goto :node0".to_string()];
+            let mut order = vec![];
+            let mut at = 0usize;
+            for _ in 0..n {
+                order.push(at);
+                at = (at + stride) % n;
+            }
+            let next_of: std::collections::HashMap<usize, Option<usize>> = order.iter().enumerate().map(|(k, &i)| (i, order.get(k + 1).cloned())).collect();
+            for i in 0..n {
+                lines.push(format!(":node{} seq = set \"${{seq}} {}\"", i, i));
+                lines.push("visits = calc ${visits} + 1".to_string());
+                match next_of[&i] {
+                    Some(j) => lines.push(format!("goto :node{}", j)),
+                    None => lines.push("goto :done".to_string()),
+                }
+            }
+            lines.push("fell = set through".to_string());
+            lines.push(":done fin = set reached".to_string());
+            let seq: String = order.iter().map(|i| format!(" {}", i)).collect();
+            // compare a digest of the order rather than the text itself: the text grows with n
+            lines.push(format!("same = equals \"${{seq}}\" \"{}\"", seq));
+            lines.push("seq = set done".to_string());
+            scale_case(w, &format!("many-labels nodes {} tour {}", n, stride_kind), &lines.join("\n"), &[("visits", Some(n.to_string())), ("same", Some("true".into())), ("fin", Some("reached".into())), ("fell", None)]);
+        }
+    }
+}
+
 pub fn worker(w: &mut Worker) {
     let tier = w.tier;
     scale(w);
+    many_labels(w);
     let forms = line_forms();
     let nmax = tier.pick(3usize, 4usize);
     let (devs, horizon) = tier.pick((2usize, 8usize), (3usize, 8usize));
@@ -718,6 +771,9 @@ fn parse_prog(text: &str) -> Vec<Line> {
 }
 
 pub fn replay(case: &Value) -> Result<String, String> {
+    if let Some(r) = scale_replay(case) {
+        return r;
+    }
     if case["kind"].as_str() == Some("file-offset") {
         let text = case["script"].as_str().ok_or("no script")?;
         let dir = scratch_root().join(format!("replay-c03-{}", std::process::id()));
@@ -775,7 +831,7 @@ pub fn crash_sig(_case: &Value, kind: &str) -> String {
     kind.to_string()
 }
 
-pub const RULE: &str = "programs: every sequence of 1..n lines over 15 line forms (a pre-processor line `!print -`, `x =` and `:a x =`, and label none/:a/:b x {no command, `k p ${x}`, `x = k p ${x}`, unknown command `nope p`}), duplicates of labels included; configurations: on_error command absent / continuing / exiting / crashing, script as text and (small programs) as file; answers: at every invocation of the scripted command k one of 18 results (Continue with/without value, Continue after removing the registered on_error command / registering one where there is none, Continue after registering / removing the command `nope` that other lines use, GoTo label :a/:b/undefined, GoTo line 0/n/n+5, Error with plain message / message containing ${x}, Crash, Exit none/0/3/-1/abc), explored with a bounded number of deviations from the default answer within a horizon of choice points. Every execution of the real runner is compared with the abstract machine run on the same answers: sequence of invocations with bound arguments and the `line` each command sees, on_error arguments (message, 1-based line, source) and the value the handler finds in the output variable when it runs, final variables, success or failure with source line and file. Scale cases: programs of 300/3000 (thorough 100000) lines with a far forward jump by label over unknown commands, a jump past the end, far backward jumps by label and by line, errors on the first and last line. evaluations = programs x configurations; transitions = executions; states = distinct (calls, outcome, deviations) classes. on_error configurations: absent, continuing, exit (no value, 0, 3), crash, goto and error results of the handler (only exit and crash fail the run). File offsets: scripts as files with a 2-, 3- or 4-byte character starting 5..0 bytes in front of every power of two from 512 to 65536 (thorough 2^20) and of 1000 / 10000 / 100000: run_script_file ends with the variables run_script of the same text ends with. The script file of the file runs lives under a directory and a name with a blank, a backslash, multi-byte and upper-case letters and a '#'";
+pub const RULE: &str = "programs: every sequence of 1..n lines over 15 line forms (a pre-processor line `!print -`, `x =` and `:a x =`, and label none/:a/:b x {no command, `k p ${x}`, `x = k p ${x}`, unknown command `nope p`}), duplicates of labels included; configurations: on_error command absent / continuing / exiting / crashing, script as text and (small programs) as file; answers: at every invocation of the scripted command k one of 18 results (Continue with/without value, Continue after removing the registered on_error command / registering one where there is none, Continue after registering / removing the command `nope` that other lines use, GoTo label :a/:b/undefined, GoTo line 0/n/n+5, Error with plain message / message containing ${x}, Crash, Exit none/0/3/-1/abc), explored with a bounded number of deviations from the default answer within a horizon of choice points. Every execution of the real runner is compared with the abstract machine run on the same answers: sequence of invocations with bound arguments and the `line` each command sees, on_error arguments (message, 1-based line, source) and the value the handler finds in the output variable when it runs, final variables, success or failure with source line and file. Scale cases: programs of 300/3000 (thorough 100000) lines with a far forward jump by label over unknown commands, a jump past the end, far backward jumps by label and by line, errors on the first and last line. evaluations = programs x configurations; transitions = executions; states = distinct (calls, outcome, deviations) classes. on_error configurations: absent, continuing, exit (no value, 0, 3), crash, goto and error results of the handler (only exit and crash fail the run). File offsets: scripts as files with a 2-, 3- or 4-byte character starting 5..0 bytes in front of every power of two from 512 to 65536 (thorough 2^20) and of 1000 / 10000 / 100000: run_script_file ends with the variables run_script of the same text ends with. The script file of the file runs lives under a directory and a name with a blank, a backslash, multi-byte and upper-case letters and a '#' Many labels: scripts of 2..3000 (thorough 12000) nodes (threshold sizes), each with a label of its own, visited by jumps along a tour over all nodes (next, previous, stride 7, stride just over half): every node once, in the order of the tour, then the end.";
 pub const ASSUMPTIONS: &[&str] = &["a line with an output variable and no command (`x =`) is a continue result without a value: that is what the public run_instruction returns for it, so the variable is deleted", "error messages are compared only through the on_error arguments; failures are compared by line and source file"];
 pub const EXHAUSTIVE: bool = true;
 pub const WALL_CAP_S: (u64, u64) = (55, 1500);
